@@ -349,11 +349,11 @@ func TestC07(t *testing.T) {
 		Bubble:         true,
 		Describe:       describe,
 		Tier:           "A",
-		RequiredProbes: []string{"snapshot-verified", "snapshot-persisted-after-later-commands", "body-accepted-by-endpoint", "body-rejected-by-endpoint", "cluster-converged", "change-acknowledged-with-a-node-unreachable", "meta-node-restarted", "fault-aimed-at-leader"},
+		RequiredProbes: []string{"snapshot-verified", "snapshot-persisted-after-later-commands", "body-accepted-by-endpoint", "body-rejected-by-endpoint", "cluster-converged", "change-acknowledged-with-a-node-unreachable", "meta-node-restarted", "fault-aimed-at-leader", "command-outlasts-fault"},
 		Real:           []string{"meta storeFSM.Apply / Snapshot / storeFSMSnapshot.Persist / Restore", "meta.Data.Clone, marshal/unmarshal", "handler validateCommand", "cluster mode: meta.Service (HTTP handler: execute with leader redirect, join, status, snapshot long poll), meta store, hashicorp/raft with bolt log/stable store and file snapshot store, the raft network layer behind tcp.Mux, meta.Client (retryUntilExec, polling) - three nodes on the simulated network and clock"},
 		Stub:           []string{"snapshot/accept modes drive the state machine directly (no raft); legacy CreateNode/RemovePeer bodies are validated but not applied (they consult live raft state)", "cluster mode: no data nodes; a stopped node is closed cleanly (its files are what it left), not cut at a crash point"},
 		Assumptions: []string{
-			"cluster mode faults: stop/restart of any node or the current leader, nodes that refuse incoming connections (asymmetric isolation; the dial seam does not know who dials, so symmetric partitions are not modelled); bolt's own crash consistency is not explored; raft's snapshot threshold (8192 entries) is not reached, so install-snapshot between live nodes is not exercised there (the snapshot mode covers the state machine's side of it)",
+			"cluster mode faults: stop/restart of any node or the current leader, nodes that refuse incoming connections on both ports, nodes whose raft links are cut in both directions while their HTTP port stays reachable (a leader that has lost its followers can still be talked to); a command may outlast a fault and must return once faults stop; bolt's own crash consistency is not explored; raft's snapshot threshold (8192 entries) is not reached, so install-snapshot between live nodes is not exercised there (the snapshot mode covers the state machine's side of it)",
 		},
 		Rule: "snapshot mode: a log of setup + 1-40 commands (biased to owner-list and privilege edits) with 1-4 snapshots taken at seeded positions and persisted 0-12 commands later; restored image must equal the state at the snapshot position in full (incl. deleted groups) and a node restarted from it must converge after replaying the suffix; accept mode: 1-12 request bodies of every command type with absent / foreign / empty / garbage / truncated / over-long extensions - whatever the endpoint's validation accepts must apply without panic; cluster mode (one run in six): three real meta nodes joined into a raft cluster, 3-18 operations (create/drop database, create retention policy, create user through the real client; stop, restart, isolate, heal a node or the leader; sleeps up to 20 s), then heal, 45 simulated seconds to settle: every acknowledged change present on every node, all nodes equal, a new command commits; non-trivial = a snapshot persisted after later commands, an accepted body applied, or a cluster run with a fault",
 	})
